@@ -14,6 +14,10 @@ package secondary
 //@ method (*withSecondaryError).Unwrap
 //@   props C07 C10 C14
 //@   ensures result == self.cause
+//@ method (*withSecondaryError).SafeFormatError
+//@   props C09
+//@   requires p != nil
+//@   ensures result == self.cause
 
 //@ func WithSecondaryError
 //@   props C10 C07
